@@ -193,6 +193,18 @@ pub fn build_pool(thorough: bool) -> Pool {
     let id = p.ident();
     p.add("c@ := [1]\n@ := [c@, c@]", l(vec![l(vec![i(1)]), l(vec![i(1)])]), id, "shared child twice", true);
     p.lit(l(vec![l(vec![i(1)]), l(vec![i(1)])]));
+    // One child at two positions of an operand, against operands that differ
+    // only opposite the second occurrence.
+    let id = p.ident();
+    p.add("d@ := [1]\n@ := [d@, d@, d@]", l(vec![l(vec![i(1)]), l(vec![i(1)]), l(vec![i(1)])]), id, "shared child three times", true);
+    p.lit(l(vec![l(vec![i(1)]), l(vec![i(2)])]));
+    p.lit(l(vec![l(vec![i(1)]), l(vec![V::Bool(true)])]));
+    p.lit(l(vec![l(vec![i(1)]), l(vec![i(1)]), l(vec![i(3)])]));
+    let id = p.ident();
+    p.add("e@ := {\"n\": 1}\n@ := {\"a\": e@, \"b\": e@}", o(vec![("a", o(vec![("n", i(1))])), ("b", o(vec![("n", i(1))]))]), id, "shared child twice", true);
+    p.lit(o(vec![("a", o(vec![("n", i(1))])), ("b", o(vec![("n", i(2))]))]));
+    p.lit(o(vec![("a", o(vec![("n", i(1))])), ("b", o(vec![("n", s("x"))]))]));
+    p.lit(o(vec![("a", o(vec![("n", i(1))])), ("b", o(vec![("n", i(1))]))]));
     // The same child shared between two operands.
     p.setup.push_str("shared := [1, 2]\n");
     for _ in 0..2 {
@@ -546,13 +558,68 @@ fn random_check(ctx: &Ctx, n: u64) {
     });
 }
 
+// Comparison results depend only on the current contents: compare, mutate
+// one operand (every kind of write), compare the same pair again.
+fn mutation_histories(ctx: &Ctx) {
+    use sdmodel::interp;
+    let setups = [
+        ("a := [1, 2, 3]\nb := [1, 2, 3]\n", "list"),
+        ("a := [[1, 2], 3]\nb := [[1, 2], 3]\n", "nested list"),
+        ("a := {\"k\": [1, 2], \"n\": 1}\nb := {\"k\": [1, 2], \"n\": 1}\n", "object"),
+    ];
+    let writes: Vec<(&str, [&str; 3])> = vec![
+        ("index assignment", ["b[0] = 9", "b[1] = 9", "b.n = 9"]),
+        ("index assignment back", ["b[0] = 1", "b[1] = 3", "b.n = 1"]),
+        ("range assignment", ["b[0:2] = [7, 8]", "b[0:1] = [5]", "b.k[0:2] = [7, 8]"]),
+        ("range assignment back", ["b[0:2] = [1, 2]", "b[0:1] = [[1, 2]]", "b.k[0:2] = [1, 2]"]),
+        ("nested write", ["b[2] = [3]", "b[0][1] = 9", "b.k[1] = 9"]),
+        ("nested write back", ["b[2] = 3", "b[0][1] = 2", "b.k[1] = 2"]),
+        ("op-assign", ["b[0] += 1", "b[1] += 1", "b.n += 1"]),
+        ("op-assign back", ["b[0] -= 1", "b[1] -= 1", "b[\"n\"] -= 1"]),
+        ("write to the other operand", ["a[0] = 9", "a[0][0] = 9", "a.k[0] = 9"]),
+        ("range write to the other operand", ["a[1:3] = [2, 3]", "a[0][0:1] = [1]", "a.k[0:1] = [1]"]),
+    ];
+    let cmp = "print([a == b, a != b, b == a])\n";
+    let mut cases = vec![];
+    let n = writes.len();
+    for (si, (setup, sname)) in setups.iter().enumerate() {
+        for len in 1..=3usize {
+            for code in 0..n.pow(len as u32) {
+                let mut src = format!("{setup}{cmp}");
+                let mut c = code;
+                let mut names = vec![];
+                for _ in 0..len {
+                    let (wname, forms) = &writes[c % n];
+                    c /= n;
+                    src.push_str(forms[si]);
+                    src.push('\n');
+                    src.push_str(cmp);
+                    names.push(*wname);
+                }
+                let prog = match crate::util::model_from_source(&src) {
+                    Ok(p) => p,
+                    Err(_) => { ctx.exclude("history not parseable without the in-process back-end"); continue; },
+                };
+                let rr = interp::run(&prog);
+                if !rr.is_ok() {
+                    continue;
+                }
+                ctx.label("compare / mutate / compare history");
+                cases.push((Case{property: "C10".into(), kind: "history".into(), srcs: vec![src.into_bytes()], pred: Pred::Expect(Expect::ok(rr.out.clone())), note: format!("{sname}: {}", names.join(", "))}, true));
+            }
+        }
+    }
+    ctx.judge_all(cases, Via::Cli, None);
+}
+
 pub fn run(ctx: &Ctx) {
-    ctx.set_rule("all ordered pairs of a pool of nested values (depth <= 3; literals, incremental key orders, spread / slice / concatenation / collected copies, aliases, shared children within and between operands, containers inside their comparand, functions nested) x {== != === !==}, transitivity/symmetry triples, random deeper pairs; oracle: structural comparison of the descriptions (mismatch-free => exactly the structural boolean; reachable mismatch => error naming a mismatching pair in operand order, or false when a difference may decide; never true, never a crash); values dumped before and after every batch of comparisons. Non-trivial = a pair with shared sub-structure, a non-literal construction history, or depth >= 2; distinct = distinct comparison expressions");
+    ctx.set_rule("all ordered pairs of a pool of nested values (depth <= 3; literals, incremental key orders, spread / slice / concatenation / collected copies, aliases, shared children within and between operands, containers inside their comparand, functions nested) x {== != === !==}, transitivity/symmetry triples, compare / write / compare-again histories (1..3 writes of every kind: element, range, nested, op-assign, on either operand; expected values from the reference interpreter), random deeper pairs; oracle: structural comparison of the descriptions (mismatch-free => exactly the structural boolean; reachable mismatch => error naming a mismatching pair in operand order, or false when a difference may decide; never true, never a crash); values dumped before and after every batch of comparisons. Non-trivial = a pair with shared sub-structure, a non-literal construction history, or depth >= 2; distinct = distinct comparison expressions");
     ctx.replay_corpus(Some(&custom));
     let pool = build_pool(ctx.tier == Tier::Thorough);
     ctx.set_extra("pool_size", serde_json::json!(pool.entries.len()));
     pairs_check(ctx, &pool);
     ctx.mark_exhaustive(&format!("all ordered pairs of the {}-value pool x 4 operators", pool.entries.len()));
+    mutation_histories(ctx);
     triples_check(ctx, &pool, ctx.n(20_000, 200_000) as usize);
     random_check(ctx, ctx.n(3_000, 300_000));
 }
